@@ -20,7 +20,7 @@ INFO = {
             "accessor equals the eager value, parse_stream ends where the eager parse ends, the stream position after an access equals "
             "the position before, trailing siblings equal the eager ones, build(lazy) == build(eager). non-trivial = transitions whose "
             "result was compared with the eager parse; distinct = (shape, input, canonical state, event)",
-    "bounds": {"quick": {"max_members": 3, "array_n": 3, "mutations": [0x00, 0x02, 0xff]}, "thorough": {"max_members": 4, "array_n": 4, "mutations": [0x00, 0x01, 0x02, 0x7f, 0xff]}},
+    "bounds": {"quick": {"max_members": 3, "array_n": 3, "mutations": [0x00, 0x02, 0x03, 0xff]}, "thorough": {"max_members": 4, "array_n": 4, "mutations": [0x00, 0x01, 0x02, 0x03, 0x04, 0x7f, 0xff]}},
     "trusted_base": ["the eager Struct/Array parse of the same members (differential oracle)"],
     "assumptions": ["no claim when the eager parse rejects (laziness may defer validation)", "== and in on lazy containers are not in the property's accessor list", "members do not cross-reference lazily skipped siblings (documented restriction)"],
 }
@@ -41,17 +41,25 @@ def kinds():
         "CString": (lambda: C.CString("ascii"), ["hi", ""]),
         "Const": (lambda: C.Const(b"\x05\x06"), [None, None]),
         "Default": (lambda: C.Default(C.Byte, 7), [2, 9]),
+        # measured by reading its count field, then not measurable (unsized elements): the fallback parse must start over
+        "PrefixedArrayVar": (lambda: C.PrefixedArray(C.Byte, C.VarInt), [[7, 300], [1]]),
+        "PrefixedCString": (lambda: C.Prefixed(C.Byte, C.CString("ascii")), ["hi", ""]),
+        # the region may be longer than the fixed-size child needs (non-canonical but accepted): the prefix decides, not sizeof
+        "PrefixedFixed": (lambda: C.Prefixed(C.Byte, C.Int16ub), [258, 0]),
+        "ArrayOfPrefixedFixed": (lambda: C.Array(2, C.Prefixed(C.Byte, C.Int16ub)), [[258, 0], [1, 2]]),
     }
 
 
-KIND_NAMES = ["Byte", "Short", "CtxBytes", "Prefixed", "PrefixedIncl", "PrefixedArray", "VarInt", "CString", "Const", "Default"]
+TRIPLE_ALPHABET = ["Byte", "CtxBytes", "Prefixed", "PrefixedFixed", "VarInt", "Const", "Default"]      # quick tier: triples over these only
+KIND_NAMES = ["Byte", "Short", "CtxBytes", "Prefixed", "PrefixedIncl", "PrefixedArray", "VarInt", "CString", "Const", "Default", "PrefixedArrayVar", "PrefixedCString", "PrefixedFixed", "ArrayOfPrefixedFixed"]
 
 
 def member_lists(tier):
     mm = INFO["bounds"][tier]["max_members"]
     out = []
     for n in range(1, min(mm, 3) + 1):
-        for combo in itertools.product(KIND_NAMES, repeat=n):
+        alpha = KIND_NAMES if n < 3 or tier == "thorough" else TRIPLE_ALPHABET
+        for combo in itertools.product(alpha, repeat=n):
             out.append(list(combo))
     if mm >= 4:
         for a, b in itertools.combinations_with_replacement(KIND_NAMES, 2):
@@ -384,7 +392,12 @@ def run_unit(unit, tier):
 def sigshort(sig):
     """signatures name the defect class and the lazy construct, not the member list"""
     parts = sig.split("/")
-    return "/".join(parts[:-1]) + "/" + parts[-1].split("(")[0]
+    head = parts[-1].split("(")[0]
+    if "ArrayOfPrefixedFixed" in parts[-1]:
+        # shapes containing a statically sized composite whose real extent is decided by a length prefix inside it:
+        # kept apart so that the recorded finding about them does not cover anything else
+        return "C16/nested-prefixed-skipped-by-static-size/" + head
+    return "/".join(parts[:-1]) + "/" + head
 
 
 def explore_lazy(ol, oe, data, sig, case0, r):
